@@ -175,3 +175,42 @@ def origin_to(h, n=1):
     iso = hyperbolic.Point(lam * _hom(x)).origin_to()
     img = iso @ hyperbolic.Point.get_origin(n)
     h.proj_eq("origin_to(lam * p) @ origin ~ p", img.proj_data, _hom(x))
+
+
+def segment_ideal_end(h, n=2, which=1):
+    """a segment one of whose endpoints is ideal (a ray): its ideal endpoints do not depend on the representatives (either sign) of the endpoints"""
+    x = _interior(h, 'x', n)
+    if n == 1:
+        y = np.array([h.const(1)], dtype=object) if h.is_sym() else np.array([1.0])
+    else:
+        # rational parametrisation of the unit sphere (stereographic, all points but one)
+        t = h.arr('t', (n - 1,))
+        d = h.dot(t, t) + 1
+        y = np.concatenate([2 * t / d, np.array([(h.dot(t, t) - 1) / d], dtype=t.dtype)])
+    lam, mu = _scales(h, 'lam'), _scales(h, 'mu')
+    ends0 = [_hom(x), _hom(y)]
+    ends1 = [lam * _hom(x), mu * _hom(y)]
+    if which == 0:
+        ends0.reverse()
+        ends1.reverse()
+    mk = h.mark()
+    s0 = hyperbolic.Segment(hyperbolic.Point(ends0[0]), hyperbolic.Point(ends0[1]))
+    s1 = hyperbolic.Segment(hyperbolic.Point(ends1[0]), hyperbolic.Point(ends1[1]))
+    h.defined("finite (no division by zero, real square root)", mk)
+    h.proj_eq("endpoints", s1.proj_data, s0.proj_data)
+    a, b = s0.aux_data, s1.aux_data
+    if h.is_sym():
+        same = _proj_same(h, b[0], a[0]) & _proj_same(h, b[1], a[1])
+        swap = _proj_same(h, b[0], a[1]) & _proj_same(h, b[1], a[0])
+        h.holds("ideal endpoints (as an unordered pair)", same | swap)
+        nz = [_any([v != 0 for v in b[k]]) for k in range(2)]
+        h.holds("ideal endpoints are non-zero vectors", nz[0] & nz[1])
+        # one of them is the given ideal endpoint
+        h.holds("the given ideal endpoint is one of them", _proj_same(h, b[0], _hom(y)) | _proj_same(h, b[1], _hom(y)))
+    else:
+        same = _proj_same(h, b[0], a[0]) and _proj_same(h, b[1], a[1])
+        swap = _proj_same(h, b[0], a[1]) and _proj_same(h, b[1], a[0])
+        fin = bool(np.all(np.isfinite(np.asarray(b, dtype=float))))
+        h.holds("ideal endpoints (as an unordered pair)", fin and (same or swap))
+        h.holds("ideal endpoints are non-zero vectors", fin and all(np.abs(np.asarray(b[k], dtype=float)).max() > 1e-9 for k in range(2)))
+        h.holds("the given ideal endpoint is one of them", fin and (_proj_same(h, b[0], _hom(y)) or _proj_same(h, b[1], _hom(y))))
